@@ -4,6 +4,7 @@ import (
 	"github.com/bolkedebruin/rdpgw/cmd/rdpgw/identity"
 	"github.com/bolkedebruin/rdpgw/cmd/rdpgw/transport"
 	"net"
+	"sync"
 	"time"
 )
 
@@ -45,6 +46,10 @@ type Tunnel struct {
 	// LastSeen is when the server received the last packet from the client
 	LastSeen time.Time
 
+	// writeMu serializes writes to transportOut: the packet loop and the
+	// goroutine forwarding data from the remote desktop server both write
+	writeMu sync.Mutex
+
 	// pending holds bytes read from transportIn that have not been consumed
 	// as a packet yet
 	pending []byte
@@ -52,6 +57,8 @@ type Tunnel struct {
 
 // Write puts the packet on the transport and updates the statistics for bytes sent
 func (t *Tunnel) Write(pkt []byte) {
+	t.writeMu.Lock()
+	defer t.writeMu.Unlock()
 	n, _ := t.transportOut.WritePacket(pkt)
 	t.BytesSent += int64(n)
 }
